@@ -17,6 +17,23 @@
 //   - every `p.f` through an Option pointer p is guarded by `p == nil ||` to its left or by an earlier
 //     `if p == nil || … { return }` of the same or an enclosing block, with no assignment to p in between;
 //   - `x = append(y, …)` only with x ≡ y; a local may not shadow a live local; no break / continue / goto / switch.
+//
+// Targets with `methodCalls` (accumulator/merkletree tree.go + readers.go) additionally get:
+//   - SINGLY LINKED LISTS: `*S` for a struct S with one field `next *S` is the VALUE `List S` of the chain (nil = [], `p.next` = tail,
+//     `&S{next: q, …}` = cons; the link is not a field of the Lean structure).  CHECKED: every dereference is nil-guarded (guards flow
+//     through `x := p`, through `&S{…}` / functions all of whose returns are `&S{…}`, through loop conditions, and survive a loop only
+//     if every assignment of the loop re-establishes them; both branches of an if are joined) or covered by an ENTRY CONDITION
+//     (impTarget.pre) that is assumed in the callee and checked at every call site, every mention of the callee in the package being
+//     inside a translated function; a field of a node is written only through a path that was assigned `&S{…}` and has not been read
+//     as a value since (so no other pointer to the node exists), never its link;
+//   - calls of methods translated before on the receiver (a method whose text never assigns the receiver returns its results only;
+//     the callee's loops get fresh fuel parameters of the caller), named results (locals at their zero value; no bare return),
+//     a slice result for which some return gives the literal nil as an Option, `if c { panic(lit) }` as FIRST statement as the
+//     predicate `<fn>.panics` (the def describes the other calls), `uint64(1 << s)`, `append(x[:0:0], x...)` = x,
+//     `make([]T, n, cap)`, `x[:n]`, `x[j] = v` on a local only ever assigned make / append to itself, fmt.Errorf without %w
+//     (identified by its format), else-if chains with break inside a loop (the continuation is translated once per branch);
+//   - io.Reader as a finite byte stream that never fails: `n, err := io.ReadFull(r, buf)` = `readFull` (emitted in the generated
+//     file), buf CHECKED to be the `make` of the statement just before; io.EOF / io.ErrUnexpectedEOF.
 package main
 
 import (
@@ -38,6 +55,11 @@ type impTarget struct {
 	elem               string   // name of a type treated as an ABSTRACT element type F with operations mul / one / inv (field level)
 	abstract           []string // package-local functions called as ABSTRACT parameters (hash arguments dropped); their source text is
 	// emitted as `abstractSrc` so that an edit of them breaks the proofs that pin it
+	more        []string // further files of the package whose functions may be named in funcs
+	methodCalls bool     // methods may call the methods translated before them on their receiver; a method that never assigns its
+	// receiver returns its results only; a slice result for which some return gives the literal nil is an Option
+	pre map[string][]string // unexported function -> pointer paths (receiver paths / parameter names) that must be non-nil at entry:
+	// assumed inside the function, CHECKED at every call site; every caller in the package must be a translated function
 	mode   string     // "h2f": Hash / SetBigInt of a field package (imp_h2f.go): parameters zeroF / setBigIntF / ExpandMsgXmd instead of mul / one / inv
 	grp    string     // name of a point type treated as an ABSTRACT group element type G with operations add / dbl / neg / zero (imp_grp.go)
 	inf    string     // name of the package-level variable holding the point at infinity (read as `zero`)
@@ -62,6 +84,11 @@ var impTargets = []impTarget{
 		abstract: []string{"leafSum", "nodeSum", "sum"},
 		guards:   []impGuard{{"VerifyProof", "verifyProof", "func VerifyProof(h hash.Hash, merkleRoot []byte, proofSet [][]byte, proofIndex uint64, numLeaves uint64) (ok bool) { defer func() { if r := recover(); r != nil { ok = false } }() return verifyProof(h, merkleRoot, proofSet, proofIndex, numLeaves) }"}}},
 	{dir: "ecc/bn254/fr/mimc", file: "mimc.go", ns: "Mimc_bn254", out: "Imp/Mimc_bn254.lean", funcs: digestFuncs, digest: true},
+	{dir: "accumulator/merkletree", file: "tree.go", ns: "MerkleTree", out: "Imp/MerkleTree.lean",
+		funcs:    []string{"New", "joinSubTrees", "joinAllSubTrees", "Root", "Push", "Prove", "SetIndex", "PushSubTree", "ReadAll"},
+		more:     []string{"readers.go"},
+		abstract: []string{"leafSum", "nodeSum", "sum"}, methodCalls: true,
+		pre: map[string][]string{"joinSubTrees": {"a", "b"}, "joinAllSubTrees": {"t.head"}}},
 }
 
 // methods of the MiMC digest (and the package-level Sum), in dependency order
@@ -137,9 +164,13 @@ type impPkg struct {
 	digMethods    map[string]*impSig // digest mode: methods of the receiver struct translated so far (receiver passed and returned by value)
 	consts        map[string]string  // package-level integer constants `Name = literal` (mode h2f)
 	constsUsed    []string
-	modulus       string             // mode h2f: the literal of `_modulus.SetString("…", 16)` in init(), as a Lean hexadecimal numeral
-	imports       map[string]string  // local package name -> import path
-	elemMeth      map[string]*impSig // methods `func (z *Element) M(…) *Element` of this target translated so far (callable as X.M(…))
+	modulus       string              // mode h2f: the literal of `_modulus.SetString("…", 16)` in init(), as a Lean hexadecimal numeral
+	imports       map[string]string   // local package name -> import path
+	elemMeth      map[string]*impSig  // methods `func (z *Element) M(…) *Element` of this target translated so far (callable as X.M(…))
+	usesReader    bool                // some translated function has an io.Reader parameter
+	listNext      map[string]string   // struct S with a field `next *S`: name of that field (S is the node type of a singly linked list)
+	recvMeths     map[string]*impMeth // methods translated so far (callable on the receiver from later ones; targets with methodCalls)
+	callers       map[string][]string // function / method name -> names of the package functions whose body calls it
 }
 
 // helper defs of loops in generation order (inner loops first): what the all-packages-equal proofs need
@@ -149,9 +180,18 @@ type impLoopInfo struct {
 }
 
 type impSig struct {
+	params   []*ity
+	result   *ity
+	results  []*ity // methods: all results
+	pnames   []string
+	nonNilRe bool // every return statement returns a fresh `&T{…}`
+}
+
+type impMeth struct {
+	mutates bool // the def returns the new receiver value (first component)
 	params  []*ity
-	result  *ity
-	results []*ity // methods: all results
+	results []*ity
+	nfuel   int
 }
 
 var impAbsParams, impAbsArgs string // abstract function parameters carried by every def of the current target
@@ -220,6 +260,11 @@ func (p *impPkg) goType(e ast.Expr) *ity {
 		if id, ok := v.X.(*ast.Ident); ok && id.Name == "hash" && v.Sel.Name == "Hash" {
 			return tyHash
 		}
+		if id, ok := v.X.(*ast.Ident); ok && id.Name == "io" && v.Sel.Name == "Reader" {
+			// a reader is read as a finite byte stream that never fails: the value is the part not yet read (see `readFull`)
+			p.usesReader = true
+			return &ity{k: "reader"}
+		}
 		if id, ok := v.X.(*ast.Ident); ok && id.Name == "big" && v.Sel.Name == "Int" {
 			return &ity{k: "bigint"}
 		}
@@ -263,7 +308,11 @@ func (p *impPkg) goType(e ast.Expr) *ity {
 			return &ity{k: "map", elem: p.goType(v.Value)}
 		}
 	case *ast.StarExpr:
-		if t := p.goType(v.X); t.k == "struct" || t.k == "elem" || t.k == "grp" || t.k == "aff" {
+		if t := p.goType(v.X); t.k == "struct" && p.listNext[t.name] != "" {
+			// pointer to a list node: the VALUE is the chain of nodes reachable through `next` (nil = []); sound because nodes are
+			// immutable once shared (field writes only to a node that is fresh and referenced by one path, checked)
+			return &ity{k: "lptr", elem: t}
+		} else if t.k == "struct" || t.k == "elem" || t.k == "grp" || t.k == "aff" {
 			return &ity{k: "ptr", elem: t}
 		} else if t.k == "bigint" { // *big.Int is read as an exact integer VALUE (mutating methods only on fresh objects)
 			return t
@@ -308,6 +357,8 @@ func (p *impPkg) lty(t *ity, qual bool) string {
 		return "UInt8"
 	case "hash":
 		return "Hash"
+	case "reader":
+		return "Bytes"
 	case "error":
 		return "Err"
 	case "events":
@@ -323,6 +374,8 @@ func (p *impPkg) lty(t *ity, qual bool) string {
 		return "GoMap " + p.ltyA(t.elem, qual)
 	case "ptr":
 		return "Option " + p.ltyA(t.elem, qual)
+	case "lptr":
+		return "List " + p.ltyA(t.elem, qual)
 	case "struct":
 		if p.tg.digest {
 			return t.name + " F BO"
@@ -350,8 +403,10 @@ func (p *impPkg) zero(t *ity) string {
 		return "0"
 	case "bool":
 		return "false"
-	case "string", "slice", "events":
+	case "string", "slice", "events", "lptr", "reader":
 		return "[]"
+	case "nslice":
+		return "none"
 	case "waitgroup":
 		return "()"
 	case "hash":
@@ -394,6 +449,7 @@ func (p *impPkg) zero(t *ity) string {
 
 func loadImp(tg impTarget) *impPkg {
 	p := &impPkg{tg: tg, fset: token.NewFileSet(), structs: map[string][]impField{}, errVars: map[string]string{}, funcs: map[string]*ast.FuncDecl{}, methods: map[string]*ast.FuncDecl{}, absDecl: map[string]*ast.FuncDecl{}, translated: map[string]*impSig{}, grpTranslated: map[string]*impSig{}, digMethods: map[string]*impSig{},
+		listNext: map[string]string{}, recvMeths: map[string]*impMeth{}, callers: map[string][]string{},
 		consts: map[string]string{}, imports: map[string]string{}, elemMeth: map[string]*impSig{}}
 	f, err := parser.ParseFile(p.fset, filepath.Join(repo, tg.dir, tg.file), nil, parser.ParseComments)
 	if err != nil {
@@ -417,11 +473,28 @@ func loadImp(tg impTarget) *impPkg {
 			}
 		}
 	}
+	for _, ts := range specs { // self-pointer fields first: `next *S` inside S makes *S a list-node pointer
+		for _, fl := range ts.Type.(*ast.StructType).Fields.List {
+			if st, ok := fl.Type.(*ast.StarExpr); ok {
+				if id, ok := st.X.(*ast.Ident); ok && id.Name == ts.Name.Name {
+					if len(fl.Names) != 1 || p.listNext[ts.Name.Name] != "" {
+						p.die(fl, "more than one self-pointer field (only singly linked lists)")
+					}
+					p.listNext[ts.Name.Name] = fl.Names[0].Name
+				}
+			}
+		}
+	}
 	for _, ts := range specs {
 		var fs []impField
 		for _, fl := range ts.Type.(*ast.StructType).Fields.List {
 			if len(fl.Names) == 0 {
 				p.die(fl, "embedded field")
+			}
+			if st, ok := fl.Type.(*ast.StarExpr); ok {
+				if id, ok := st.X.(*ast.Ident); ok && id.Name == ts.Name.Name {
+					continue // the `next` pointer is the tail of the list value
+				}
 			}
 			for _, n := range fl.Names {
 				fs = append(fs, impField{n.Name, p.goType(fl.Type)})
@@ -482,6 +555,60 @@ func loadImp(tg impTarget) *impPkg {
 		in.Name = ast.NewIdent(gd.name)
 		p.funcs[gd.name] = in
 		delete(p.funcs, gd.inner)
+	}
+	for _, m := range tg.more {
+		mf, err := parser.ParseFile(p.fset, filepath.Join(repo, tg.dir, m), nil, parser.ParseComments)
+		if err != nil {
+			die("imp: parse: %v", err)
+		}
+		for _, d := range mf.Decls {
+			if fd, ok := d.(*ast.FuncDecl); ok {
+				if p.funcs[fd.Name.Name] != nil {
+					die("imp: %s: %s declared twice", tg.dir, fd.Name.Name)
+				}
+				p.funcs[fd.Name.Name] = fd
+			}
+		}
+	}
+	if len(tg.pre) > 0 {
+		files, _ := filepath.Glob(filepath.Join(repo, tg.dir, "*.go"))
+		sort.Strings(files)
+		for _, fn := range files {
+			if strings.HasSuffix(fn, "_test.go") {
+				continue
+			}
+			af, err := parser.ParseFile(token.NewFileSet(), fn, nil, 0)
+			if err != nil {
+				die("imp: parse: %v", err)
+			}
+			for _, d := range af.Decls {
+				fd, ok := d.(*ast.FuncDecl)
+				if !ok || fd.Body == nil {
+					continue
+				}
+				ast.Inspect(fd.Body, func(n ast.Node) bool {
+					switch c := n.(type) {
+					case *ast.Ident: // also catches a function used as a value
+						p.callers[c.Name] = append(p.callers[c.Name], fd.Name.Name)
+					}
+					return true
+				})
+			}
+		}
+		for name := range tg.pre {
+			if ast.IsExported(name) {
+				die("imp: %s: entry condition declared for the exported function %s", tg.dir, name)
+			}
+			for _, c := range p.callers[name] {
+				ok := false
+				for _, fn := range tg.funcs {
+					ok = ok || fn == c
+				}
+				if !ok {
+					die("imp: %s: %s (which has an entry condition) is mentioned in %s, which is not translated", tg.dir, name, c)
+				}
+			}
+		}
 	}
 	// abstract package-local functions: found in any non-test file of the package
 	if len(tg.abstract) > 0 {
@@ -635,7 +762,7 @@ func (p *impPkg) translateFunc(name string) string {
 		params = append(params, "("+lname(f.recv)+" : "+p.lty(t, false)+")")
 	}
 	for _, fl := range fd.Type.Params.List {
-		if _, ok := fl.Type.(*ast.StarExpr); ok && p.goType(fl.Type).k != "bigint" && !(p.goType(fl.Type).k == "ptr" && (p.goType(fl.Type).elem.k == "grp" || p.goType(fl.Type).elem.k == "aff")) {
+		if _, ok := fl.Type.(*ast.StarExpr); ok && p.goType(fl.Type).k != "bigint" && p.goType(fl.Type).k != "lptr" && !(p.goType(fl.Type).k == "ptr" && (p.goType(fl.Type).elem.k == "grp" || p.goType(fl.Type).elem.k == "aff")) {
 			p.die(fl, "pointer parameter (outside the subset: only the receiver is passed by reference)")
 		}
 		t0 := p.paramType(fl.Type)
@@ -662,10 +789,18 @@ func (p *impPkg) translateFunc(name string) string {
 			params = append(params, "("+lname(n.Name)+" : "+p.lty(t, false)+")")
 		}
 	}
+	var namedRes []string
 	if fd.Type.Results != nil {
 		for _, fl := range fd.Type.Results.List {
 			if len(fl.Names) > 0 {
-				p.die(fl, "named results")
+				// named results are locals that start at their zero value (a bare `return` is refused: every return lists its values)
+				for _, n := range fl.Names {
+					t := p.paramType(fl.Type)
+					f.declare(fl, n.Name, t)
+					namedRes = append(namedRes, "  let "+lname(n.Name)+" : "+p.lty(t, false)+" := "+p.zero(t)+"  -- named result")
+					f.results = append(f.results, t)
+				}
+				continue
 			}
 			if _, isPtr := fl.Type.(*ast.StarExpr); isPtr && p.tg.mode == "h2f" && f.recvTy != nil && f.recvTy.k == "elem" && len(fd.Type.Results.List) == 2 {
 				// `func (z *Element) M(…) (*Element, error)`: the returned pointer is z or nil: Option F
@@ -674,6 +809,33 @@ func (p *impPkg) translateFunc(name string) string {
 			}
 			f.results = append(f.results, p.paramType(fl.Type))
 		}
+	}
+	// a slice result for which some return statement gives the literal nil (or the nil-able result of a method): the result is an
+	// Option (nil = none), every other returned value v is `some v`
+	ast.Inspect(fd.Body, func(n ast.Node) bool {
+		if _, ok := n.(*ast.FuncLit); ok {
+			return false
+		}
+		if r, ok := n.(*ast.ReturnStmt); ok && len(r.Results) == len(f.results) && p.tg.methodCalls {
+			for i, e := range r.Results {
+				if f.results[i].k != "slice" {
+					continue
+				}
+				if id, ok := e.(*ast.Ident); ok && id.Name == "nil" {
+					f.results[i] = &ity{k: "nslice", elem: f.results[i]}
+				} else if c, ok := e.(*ast.CallExpr); ok {
+					if se, ok := c.Fun.(*ast.SelectorExpr); ok && exprText(se.X) == f.recv {
+						if m := p.recvMeths[se.Sel.Name]; m != nil && len(m.results) == 1 && m.results[0].k == "nslice" {
+							f.results[i] = m.results[0]
+						}
+					}
+				}
+			}
+		}
+		return true
+	})
+	for _, g := range p.tg.pre[name] { // entry condition: assumed here, checked at every call site
+		f.nonNil[g] = true
 	}
 	if f.recv != "" && (f.recvTy.k == "elem" || f.recvTy.k == "grp") && len(f.results) == 1 && f.results[0].k == f.recvTy.k {
 		// `func (z *Element) M(…) *Element`: the methods of the element type return their receiver; the def returns the new value of z
@@ -689,10 +851,19 @@ func (p *impPkg) translateFunc(name string) string {
 			defer func() { p.elemMeth[name] = sig }()
 		}
 	}
+	if f.recv != "" && !f.evRecv && f.recvTy.k == "struct" && p.tg.methodCalls {
+		// a method that never assigns its receiver (nor calls a method that does) returns its results only
+		f.recvRO = true
+		for _, a := range f.assigned(fd.Body) {
+			if a == f.recv {
+				f.recvRO = false
+			}
+		}
+	}
 	u := &iuses{}
 	c := &ictx{uses: u,
 		ret: func(vals string) string {
-			if f.recv == "" {
+			if f.recv == "" || f.recvRO {
 				return vals
 			}
 			if len(f.results) == 0 {
@@ -711,6 +882,9 @@ func (p *impPkg) translateFunc(name string) string {
 		f.checkRecvAlias()
 	}
 	body := f.seq(fd.Body.List, nil, c, "  ", nil, true)
+	if len(namedRes) > 0 {
+		body = strings.Join(namedRes, "\n") + "\n" + body
+	}
 	if f.evRecv {
 		body = "  let " + lname(f.recv) + " : " + p.lty(f.recvTy, false) + " := []  -- calls of the callback, in order\n" + body
 	}
@@ -721,13 +895,39 @@ func (p *impPkg) translateFunc(name string) string {
 		params = append(params, "("+fu+" : Nat)")
 	}
 	if f.recv == "" && len(f.results) == 1 && !u.W && !u.H && !u.S && !u.B && len(f.fuels) == 0 && !f.usesNumCPU {
-		sig := &impSig{result: f.results[0]}
+		sig := &impSig{result: f.results[0], nonNilRe: true}
 		for _, fl := range fd.Type.Params.List {
-			for range fl.Names {
+			for _, n := range fl.Names {
 				sig.params = append(sig.params, p.paramType(fl.Type))
+				sig.pnames = append(sig.pnames, n.Name)
 			}
 		}
+		ast.Inspect(fd.Body, func(n ast.Node) bool {
+			if r, ok := n.(*ast.ReturnStmt); ok {
+				if ue, ok := r.Results[0].(*ast.UnaryExpr); !ok || ue.Op != token.AND {
+					sig.nonNilRe = false
+				} else if _, ok := ue.X.(*ast.CompositeLit); !ok {
+					sig.nonNilRe = false
+				}
+			}
+			return true
+		})
 		p.translated[name] = sig
+	} else if len(p.tg.pre[name]) > 0 && f.recv == "" {
+		p.die(fd, "entry condition on a function that cannot be called from translated code")
+	}
+	if f.recv != "" && !f.evRecv && f.recvTy.k == "struct" && p.tg.methodCalls {
+		if u.W || u.H || u.S || u.B || f.usesNumCPU {
+			// such a method is translated but cannot be called from another translated one
+		} else {
+			m := &impMeth{mutates: !f.recvRO, results: f.results, nfuel: len(f.fuels)}
+			for _, fl := range fd.Type.Params.List {
+				for range fl.Names {
+					m.params = append(m.params, p.paramType(fl.Type))
+				}
+			}
+			p.recvMeths[name] = m
+		}
 	}
 	if f.retSelf && f.recvTy.k == "grp" && len(f.fuels) == 0 && !u.W && !u.H && !u.S && !u.B && !f.usesNumCPU {
 		sig := &impSig{result: f.recvTy}
@@ -769,7 +969,7 @@ func (p *impPkg) translateFunc(name string) string {
 		b.WriteString(h + "\n")
 	}
 	pos := p.fset.Position(fd.Pos())
-	fmt.Fprintf(&b, "/-- %s/%s line %d: `func %s` -/\ndef %s%s %s : %s :=\n%s\n\n", p.tg.dir, p.tg.file, pos.Line, name, lname(name), whParams(*u), strings.Join(params, " "), f.retTy(), body)
+	fmt.Fprintf(&b, "/-- %s/%s line %d: `func %s` -/\ndef %s%s %s : %s :=\n%s\n\n", p.tg.dir, filepath.Base(pos.Filename), pos.Line, name, lname(name), whParams(*u), strings.Join(params, " "), f.retTy(), body)
 	return b.String()
 }
 
@@ -953,6 +1153,10 @@ func runImp() {
 			}
 			fmt.Fprintf(&b, "deriving Repr, DecidableEq\ninstance : Inhabited %s := ⟨{}⟩\n\n", sn)
 		}
+		if len(p.listNext) > 0 {
+			b.WriteString("/-- `*p` for a non-nil pointer `p` to a list node.  A pointer to a struct `S` that has a field `next *S` is translated to the VALUE\n`List S` of the chain of nodes reachable through `next` (nil = `[]`, `p.next` = `p.tail`, `&S{next: q, …}` = `{…} :: q`, the `next` field is\nnot a field of the Lean structure); the translator checks that every dereference is nil-guarded (or covered by a checked entry\ncondition) and that fields are only written through a pointer that is fresh and unaliased. -/\n")
+			b.WriteString("def nodeOf {α : Type} [Inhabited α] (p : List α) : α := p.headD default\n\n")
+		}
 		if len(tg.abstract) > 0 {
 			// only the functions that the translated ones call directly become parameters; the others are pinned by their text
 			b.WriteString("/-- source text of the package-local functions that are NOT translated (called as abstract parameters, or reached from\nthose): pinned by a theorem of the property file, so that an edit of them breaks the tie -/\ndef abstractSrc : List (String × String) := [\n")
@@ -995,6 +1199,10 @@ func runImp() {
 		}
 		if tg.mode == "h2f" {
 			b.WriteString(p.h2fHeader())
+		}
+		if p.usesReader {
+			b.WriteString("/-- `n, err := io.ReadFull(r, buf)` for a reader that is a FINITE BYTE STREAM WHICH NEVER FAILS (a bytes.Reader; a reader that returns\nother errors or blocks is outside the model): `r` is the part of the stream not yet read; result = (rest of the stream, contents of\nbuf afterwards, n, err).  An empty buffer reads nothing and succeeds; at the end of the stream io.EOF; fewer bytes left than the\nbuffer holds: they are read and the error is io.ErrUnexpectedEOF. -/\n")
+			b.WriteString("def readFull (r : Bytes) (buf : Bytes) : Bytes × Bytes × Int × Err :=\n  if buf.length = 0 then (r, buf, 0, Err.nil)\n  else if r.length = 0 then (r, buf, 0, Err.sentinel \"io.EOF\")\n  else if r.length < buf.length then ([], r ++ buf.drop r.length, len r, Err.sentinel \"io.ErrUnexpectedEOF\")\n  else (r.drop buf.length, r.take buf.length, len buf, Err.nil)\n\n")
 		}
 		b.WriteString(bodies.String())
 		fmt.Fprintf(&b, "end GV.Gen.Imp.%s\n", tg.ns)
